@@ -135,7 +135,7 @@ func checkCase(w *world, mon *lib.Monitor, c scase) (ow, og outcome) {
 		mon.Count("skipped:grpc-incomplete")
 		return
 	}
-	mon.Eval(c.args(), true, map[string]any{"case": c, "wrapper": ow.text(), "grpc": og.text()})
+	mon.Eval(c.key(), true, map[string]any{"case": c, "wrapper": ow.text(), "grpc": og.text()})
 	mon.Count("shape:" + c.Shape)
 	if d := firstDiff(ow.client, og.client); d != "" {
 		mon.Violate("C13/"+c.Shape+"/client-transcript/"+d,
@@ -151,7 +151,9 @@ func checkCase(w *world, mon *lib.Monitor, c scase) (ow, og outcome) {
 			"goroutines above the baseline after the wrapped call finished or was cancelled",
 			c, "0", fmt.Sprint(ow.leak))
 	}
-	checkCopy(mon, c, ow)
+	if !c.Reuse {
+		checkCopy(mon, c, ow)
+	}
 	return
 }
 
@@ -218,6 +220,8 @@ func runScripts(f lib.Flags, res *lib.Result, w *world, drv *lib.Driver) {
 
 	r := lib.NewRand(f.Seed)
 	cases := basicCases()
+	// the internal order of Close must be unobservable: handler with many derived contexts, client parked in RecvMsg
+	cases = append(cases, ampCases(f.N(100, 300))...)
 	n := f.N(1500, 40000)
 	for i := 0; i < n; i++ {
 		size := 0
@@ -235,8 +239,8 @@ func runScripts(f lib.Flags, res *lib.Result, w *world, drv *lib.Driver) {
 	seen := map[string]bool{}
 	uniq := cases[:0]
 	for _, c := range cases {
-		if !seen[c.args()] {
-			seen[c.args()] = true
+		if !seen[c.key()] {
+			seen[c.key()] = true
 			uniq = append(uniq, c)
 		}
 	}
@@ -292,17 +296,40 @@ func runScripts(f lib.Flags, res *lib.Result, w *world, drv *lib.Driver) {
 			continue
 		}
 		if drv != nil {
-			tieW.Record(c.args(), true, c, mW[i], ow.text())
-			tieG.Record(c.args(), true, c, mG[i], og.text())
+			tieW.Record(c.key(), true, c, mW[i], ow.text())
+			tieG.Record(c.key(), true, c, mG[i], og.text())
 			tieW.Count("shape:" + c.Shape)
 			for _, e := range og.client {
 				tieG.Count("event:" + evKind(e))
 			}
 		}
 	}
+	runStress(f, w, mon)
 	if drv == nil {
 		tieW.Fail(fmt.Errorf("no Lean driver given"))
 		tieG.Fail(fmt.Errorf("no Lean driver given"))
+	}
+}
+
+// runStress repeats terminal-status scripts (client parked in RecvMsg when the handler returns) on
+// the wrapper without any amplifier: every repetition must give the transcript real gRPC gives.
+func runStress(f lib.Flags, w *world, mon *lib.Monitor) {
+	reps := f.N(400, 4000)
+	for _, c := range ampCases(0) {
+		og := runCase(w.grpcCC, w.srv, c, false)
+		if og.timedOut || og.skip {
+			continue
+		}
+		for i := 0; i < reps; i++ {
+			ow := runCase(w.wrapCC, w.srv, c, false)
+			mon.Count("stress-repetition")
+			if d := firstDiff(ow.client, og.client); d != "" {
+				mon.Violate("C13/"+c.Shape+"/client-transcript/"+d,
+					"repeated run of one script: a client of the wrapped server observes something else than over a real gRPC connection (wrapper-vs-grpc, first difference)",
+					c, og.text(), ow.text())
+				break
+			}
+		}
 	}
 }
 
